@@ -198,6 +198,9 @@ StepClauses(pre, ev, o, out, f, g2) ==
   \cup If(ok /\ changed /\ ~mut, "C08:reader_changed_bytes")
   \* the object Tdf.copy returns accepted a mutation although allow_write() was never called on it
   \cup If(ev.leak, "C08:copy_is_write_enabled")
+  \* __exit__ answered "handled" for an exception that crossed the context: a mutation refused
+  \* inside a with block would no longer raise out of it
+  \cup If(ev.swallow, "C08:exit_swallows_exception")
   \cup If(ok /\ changed /\ mut /\ ~CanWrite(pre.s.m), "C08:changed_outside_write_ctx")
   \cup If(~ob.mem.inside /\ ob.mem.fds # 0, "C08:handle_leak")
   \cup If(ob.mem.inside /\ ob.mem.fds > 1, "C08:handle_leak")
